@@ -242,6 +242,8 @@ class ZMQEventLoop(EventLoop):
         exception. If :exc:`ExitMainLoop` is raised, exit cleanly.
         """
         with contextlib.suppress(ExitMainLoop):
+            # whatever ended the previous run, the idle callbacks get a pass before the first wait
+            self._did_something = True
             while True:
                 self._loop()
 
